@@ -38,6 +38,13 @@ var zzNames = []string{"a", "b"}
 // zzFillMode: 0 values and types, 1 values only, 2 types only.
 var zzFillMode = 0
 
+// zzResetHarnessGlobals: the defaults every engine path starts from (the batched
+// native cross-check runs many harnesses in one process).
+func zzResetHarnessGlobals() {
+	zzNames = []string{"a", "b"}
+	zzFillMode = 0
+}
+
 var zzTypeCodes = []reflect.Type{reflect.TypeOf(int64(0)), reflect.TypeOf(""), nil}
 
 func zzIndexOfEnv(w *zzWorld, e *Env) int {
